@@ -13,6 +13,43 @@ import (
 )
 
 // ---------------------------------------------------------------------------
+// regression seeds of repaired defects
+
+func TestSeeds(t *testing.T) {
+	if harness.E.Shard != 0 || harness.E.Replay != "" {
+		t.Skip("seeds run in shard 0")
+	}
+	// FieldArrayRootBitBufFn whose callback fails: the elements below the
+	// nested root kept Index 0, so every element reported the path of the
+	// first one (repaired in 7e565ad1, found by C03)
+	p := &treegen.Program{Input: "00", NBits: 8, Fmts: [][]*treegen.Op{{
+		{K: "arrayroot", Name: "f2", Hex: "01", NB: 8, Kids: []*treegen.Op{
+			{K: "val", Name: "b"}, {K: "u", Name: "f3", N: 2}, {K: "u", Name: "f4", N: 3}, {K: "u", Name: "f5", N: 2}, {K: "u", Name: "f6", N: 2},
+		}},
+	}}}
+	top, _ := treegen.RunFQ(p)
+	res := &treegen.Result{Status: "tree"}
+	elems := 0
+	if top != nil {
+		tr := treegen.Build(top)
+		for _, n := range tr.All {
+			if n.Parent != nil && n.Parent.V.Name == "f2" && n.Parent.V.IsRoot {
+				elems++
+			}
+		}
+		checkTree(tr, 1, 1, res)
+	}
+	req := treegen.Req{Path: "seed:arrayroot-failing-callback", Format: "program"}
+	count(req, res, "src:seed")
+	report(t, t.Name(), p, req.String(), res)
+	if top == nil || top.Err == nil || elems < 3 {
+		if harness.Violate(t.Name(), "harness:seed-shape", "the seed program no longer produces a failed nested array root with several elements", p) {
+			t.Errorf("seed program: top %v, elements below f2: %d", top != nil, elems)
+		}
+	}
+}
+
+// ---------------------------------------------------------------------------
 // (A) corpus, unmodified
 
 func TestCorpus(t *testing.T) {
@@ -52,7 +89,7 @@ func TestMutants(t *testing.T) {
 			t.Errorf("no mutated decode was answered by the worker process")
 		}
 	}()
-	harness.Rapid(t, 4000, 150000, func(rt *rapid.T, c *harness.Case) {
+	harness.Rapid(t, 4000, 100000, func(rt *rapid.T, c *harness.Case) {
 		b := buckets[treegen.UniformIndex(rt, "bucket", len(buckets))]
 		e := corpus[b.Entries[treegen.UniformIndex(rt, "entry", len(b.Entries))]]
 		req := treegen.Req{Path: e.Path, Format: e.Format}
@@ -89,7 +126,7 @@ func TestMutants(t *testing.T) {
 // (B) generated decoder programs
 
 func TestPrograms(t *testing.T) {
-	harness.Rapid(t, 16000, 1200000, func(rt *rapid.T, c *harness.Case) {
+	harness.Rapid(t, 16000, 600000, func(rt *rapid.T, c *harness.Case) {
 		p := treegen.DrawProgram(rt, 25, 64)
 		c.Set("program", p)
 		res := &treegen.Result{}
@@ -120,7 +157,7 @@ func TestPrograms(t *testing.T) {
 			}()
 			every := 20
 			if thorough() {
-				every = 4
+				every = 40
 			}
 			checkTree(treegen.Build(top), harness.Hash64(p), every, res)
 		}()
@@ -213,7 +250,7 @@ func TestPathExpr(t *testing.T) {
 		var full []any
 		nfull := 1
 		if thorough() {
-			nfull = 3
+			nfull = 2
 		}
 		for k := 0; k < nfull && k < nb; k++ {
 			full = append(full, paths[rapid.IntRange(0, nb-1).Draw(rt, "full")])
